@@ -177,8 +177,16 @@ func c14units(tier string) []mc.Unit {
 					f.score = []string{".", "0.5"}[c.Dev(fmt.Sprintf("f%d.score", i), 2)]
 					na := []int{1, 2, 3, 6}[c.Dev(fmt.Sprintf("f%d.attrs", i), 4)]
 					f.attrs = map[string]string{}
+					blanks := c.Dev(fmt.Sprintf("f%d.blanks", i), 3) // attribute values may begin or end with a blank
 					for k := 0; k < na; k++ {
-						f.attrs[c14attrMenu[k][0]] = c14attrMenu[k][1]
+						v := c14attrMenu[k][1]
+						switch blanks {
+						case 1:
+							v += " "
+						case 2:
+							v = " " + v
+						}
+						f.attrs[c14attrMenu[k][0]] = v
 					}
 					if i > 0 {
 						f.typ, f.source = "CDS", "Genbank"
